@@ -9,6 +9,7 @@ CORE = ["point.py", "expression.py", "constraint.py", "psd_matrix.py", "function
 
 def scan(repo):
     class_attrs, module_objs, mutations, reset = [], [], [], []
+    mutable_attrs, shadowed = [], []
     files = list(CORE)
     for sub in ("functions", "operators", "primitive_steps"):
         for f in sorted(os.listdir(os.path.join(repo, "PEPit", sub))):
@@ -28,6 +29,19 @@ def scan(repo):
                         for t in st.targets:
                             if isinstance(t, ast.Name):
                                 class_attrs.append((node.name, t.id, ast.unparse(st.value)))
+                                v = st.value
+                                # a mutable container created once at class level is shared by every instance (and by every
+                                # model of the process) unless __init__ rebinds it on the instance
+                                if isinstance(v, (ast.List, ast.Dict, ast.Set, ast.ListComp, ast.DictComp, ast.SetComp)) or \
+                                        (isinstance(v, ast.Call) and isinstance(v.func, ast.Name) and v.func.id in ("list", "dict", "set", "defaultdict", "OrderedDict", "deque")):
+                                    mutable_attrs.append((node.name, t.id))
+                    elif isinstance(st, ast.FunctionDef) and st.name == "__init__":
+                        # attributes unconditionally rebound on the instance by __init__ (top-level statements of its body)
+                        for s2 in st.body:
+                            if isinstance(s2, ast.Assign):
+                                for t in s2.targets:
+                                    if isinstance(t, ast.Attribute) and isinstance(t.value, ast.Name) and t.value.id == "self":
+                                        shadowed.append((node.name, t.attr))
             elif isinstance(node, ast.Assign) and rel in CORE:
                 for t in node.targets:
                     if isinstance(t, ast.Name) and t.id != "__all__":
@@ -54,6 +68,18 @@ def scan(repo):
                     for t in st.targets:
                         if isinstance(t, ast.Attribute) and isinstance(t.value, ast.Name):
                             reset.append((t.value.id, t.attr, ast.unparse(st.value)))
+    # is `self._reset_classes()` a top-level (unconditional) statement of PEP.__init__ ?
+    uncond = False
+    for node in ast.walk(trees["pep.py"]):
+        if isinstance(node, ast.ClassDef) and node.name == "PEP":
+            for st in node.body:
+                if isinstance(st, ast.FunctionDef) and st.name == "__init__":
+                    for s2 in st.body:
+                        if isinstance(s2, ast.Expr) and isinstance(s2.value, ast.Call) and isinstance(s2.value.func, ast.Attribute) \
+                                and s2.value.func.attr == "_reset_classes" and isinstance(s2.value.func.value, ast.Name) and s2.value.func.value.id == "self":
+                            uncond = True
+    scan.reset_unconditional = uncond
+    scan.mutable_attrs, scan.shadowed = mutable_attrs, shadowed
     return class_attrs, module_objs, mutations, reset
 
 
@@ -62,12 +88,16 @@ def main(repo, out_json, out_lean):
     mutated = sorted({(c, a) for c, a, _ in mutations})
     declared = sorted({(c, a) for c, a, _ in class_attrs})
     # class-level state = declared at class level AND mutated through the class somewhere
-    state = [x for x in declared if x in mutated]
+    # ... or a mutable container created at class level that __init__ does not rebind on the instance
+    shared = sorted({x for x in scan.mutable_attrs if x not in set(scan.shadowed)})
+    state = sorted({x for x in declared if x in mutated} | set(shared))
     resetset = sorted({(c, a) for c, a, _ in reset})
     json.dump(dict(class_attrs=class_attrs, module_objs=module_objs, mutations=mutations, reset=reset, state=state), open(out_json, "w"), indent=1)
     def lst(xs): return "[" + ", ".join('("%s", "%s")' % x for x in xs) + "]"
     lean = "/-! GENERATED by translator T2 (gen_inventory.py) from the working tree of /repo. Do not edit. -/\n\nnamespace Gen.Inventory\n\n"
     lean += "/-- class attributes declared at class level and mutated through the class somewhere in PEPit -/\ndef classState : List (String × String) :=\n  %s\n\n" % lst(state)
+    lean += "/-- mutable containers created at class level and not rebound by `__init__` (shared by all instances) -/\ndef sharedContainers : List (String × String) :=\n  %s\n\n" % lst(shared)
+    lean += "/-- `self._reset_classes()` is an unconditional top-level statement of `PEP.__init__` -/\ndef resetInInit : Bool := %s\n\n" % ("true" if scan.reset_unconditional else "false")
     lean += "/-- every `Class.attr` mutated through the class anywhere (declared at class level or not) -/\ndef mutated : List (String × String) :=\n  %s\n\n" % lst(mutated)
     lean += "/-- the attributes `PEP._reset_classes` assigns -/\ndef reset : List (String × String) :=\n  %s\n\n" % lst(resetset)
     lean += "/-- initial values at class level and values assigned by the reset, as source text -/\ndef initial : List (String × String × String) :=\n  [%s]\n\n" % ", ".join('("%s", "%s", "%s")' % (c, a, v.replace('"', "'")) for c, a, v in class_attrs if (c, a) in state)
